@@ -388,6 +388,8 @@ def while_index_to_for(init: ast.stmt, loop: ast.stmt, later: List[ast.stmt]) ->
                     and n.func.attr in ("append", "extend", "pop", "remove", "insert", "clear", "sort", "reverse", "add", "discard", "update"):
                 mutated.add(n.func.value.id)
             if isinstance(n, (ast.Subscript, ast.Attribute)) and isinstance(n.ctx, (ast.Store, ast.Del)):
+                if isinstance(n, ast.Subscript) and isinstance(n.ctx, ast.Store) and not isinstance(n.slice, ast.Slice):
+                    continue              # xs[i] = v replaces an element: the length the bound reads stays what it was
                 root = n
                 while isinstance(root, (ast.Subscript, ast.Attribute)):
                     root = root.value
@@ -486,6 +488,47 @@ def range_index_to_elements(loop: ast.stmt, env_lens=None) -> Optional[ast.For]:
     ast.fix_missing_locations(new)
     return new
 
+
+
+def inplace_map(loop: ast.stmt, params: set) -> Optional[ast.Assign]:
+    """for i in range(len(xs)): xs[i] = E(xs[i])      ->      xs = [E(x) for x in xs]
+    for a local list xs (a plain name that is not a parameter of the function: nobody else holds the list whose slots are
+    overwritten) when the body is that one assignment and E looks at xs only through xs[i]"""
+    if not (isinstance(loop, ast.For) and not loop.orelse and isinstance(loop.target, ast.Name) and len(loop.body) == 1
+            and isinstance(loop.iter, ast.Call) and isinstance(loop.iter.func, ast.Name) and loop.iter.func.id == "range"
+            and len(loop.iter.args) == 1 and not loop.iter.keywords):
+        return None
+    i = loop.target.id
+    st = loop.body[0]
+    if not (isinstance(st, ast.Assign) and len(st.targets) == 1 and isinstance(st.targets[0], ast.Subscript)
+            and isinstance(st.targets[0].value, ast.Name) and isinstance(st.targets[0].slice, ast.Name) and st.targets[0].slice.id == i):
+        return None
+    xs = st.targets[0].value.id
+    if xs in params or not _is_len_of(loop.iter.args[0], ast.dump(ast.Name(id=xs, ctx=ast.Load()))):
+        return None
+    elem = "__sa_elem_" + i
+    ok = [True]
+
+    class Repl(ast.NodeTransformer):
+        def visit_Subscript(self, n):
+            if isinstance(n.value, ast.Name) and n.value.id == xs and isinstance(n.slice, ast.Name) and n.slice.id == i \
+                    and isinstance(n.ctx, ast.Load):
+                return ast.copy_location(ast.Name(id=elem, ctx=ast.Load()), n)
+            return self.generic_visit(n)
+
+        def visit_Name(self, n):
+            if n.id in (xs, i):
+                ok[0] = False
+            return n
+    value = Repl().visit(copy.deepcopy(st.value))
+    if not ok[0]:
+        return None
+    comp = ast.ListComp(elt=value, generators=[ast.comprehension(target=ast.Name(id=elem, ctx=ast.Store()),
+                                                                 iter=ast.Name(id=xs, ctx=ast.Load()), ifs=[], is_async=0)])
+    new = ast.Assign(targets=[ast.Name(id=xs, ctx=ast.Store())], value=comp)
+    ast.copy_location(new, loop)
+    ast.fix_missing_locations(new)
+    return new
 
 
 def _continue_guards(body: List[ast.stmt]) -> List[ast.stmt]:
@@ -632,6 +675,18 @@ def _match_to_if(m: ast.Match) -> Optional[ast.stmt]:
 
 
 class _Desugar(ast.NodeTransformer):
+    def visit_FunctionDef(self, node):
+        saved = getattr(self, "_params", set())
+        a = node.args
+        self._params = {x.arg for x in a.posonlyargs + a.args + a.kwonlyargs} | ({a.vararg.arg} if a.vararg else set()) | \
+            ({a.kwarg.arg} if a.kwarg else set())
+        try:
+            return self.generic_visit(node)
+        finally:
+            self._params = saved
+
+    visit_AsyncFunctionDef = visit_FunctionDef
+
     def visit_Match(self, node):
         self.generic_visit(node)
         r = _match_to_if(node)
@@ -649,10 +704,15 @@ class _Desugar(ast.NodeTransformer):
             if k + 1 < len(stmts):
                 r = while_index_to_for(s, stmts[k + 1], stmts[k + 2:])
                 if r is not None:
-                    pre.append(range_index_to_elements(r) or r)
+                    pre.append(inplace_map(r, getattr(self, "_params", set())) or range_index_to_elements(r) or r)
                     k += 2
                     continue
             if isinstance(s, ast.For):
+                m = inplace_map(s, getattr(self, "_params", set()))
+                if m is not None:
+                    pre.append(m)
+                    k += 1
+                    continue
                 r = range_index_to_elements(s)
                 if r is not None:
                     s = r
